@@ -134,7 +134,10 @@ class CheckC05(core.Check):
                 r.foreign_dev("C02", "session did not reach the delivery phase")
                 return r
             if e.panic:
-                r.foreign_dev("C10", "panic in %s" % e.op)
+                if kind != "set":
+                    r.viol("C05|panic|%s" % kind, "%s/%s dir %d: delivery (%s %d) panicked instead of being accepted or rejected: %s" % (ci, be, d, kind, v, e.res[:120]))
+                else:
+                    r.foreign_dev("C10", "panic in %s" % e.op)
                 return r
             if kind == "set":
                 rn = v
